@@ -44,6 +44,10 @@ func encodeXterm(key vaxis.Key, deckpam bool, decckm bool) string {
 			}
 		}
 
+		if key.Text != "" {
+			// the text the key produced (Caps Lock, AltGr, compose, ...)
+			return key.Text
+		}
 		if key.Keycode < unicode.MaxRune {
 			// Unicode keys
 			return string(key.Keycode)
